@@ -25,11 +25,20 @@ pub struct Gen<'a> {
     pub image: &'a Image,
     pub zones: Vec<String>,
     pub named: Vec<String>,
+    /// Receivers already used in this run: real programs call several
+    /// accessors on the same value, from several threads (memo-style defects
+    /// need a repeated value to show).
+    recent: Vec<(String, i128, u8)>,
+    last_op: Option<Op>,
+    /// "Hot" runs: one or two kinds of call on two to four receivers make up
+    /// most of the workload (many threads hammering the same accessor on the
+    /// same values).
+    hot: bool,
 }
 
 impl<'a> Gen<'a> {
     pub fn new(seed: u64, image: &'a Image) -> Self {
-        let mut g = Gen { rng: Rng::derive(seed, 0x9e4, 1), image, zones: vec![], named: vec![] };
+        let mut g = Gen { rng: Rng::derive(seed, 0x9e4, 1), image, zones: vec![], named: vec![], recent: vec![], last_op: None, hot: false };
         g.pick_zones();
         g
     }
@@ -128,13 +137,34 @@ impl<'a> Gen<'a> {
     }
 
     pub fn op(&mut self, kind: &str) -> Op {
-        let zone = self.zone();
-        let ns = self.instant(&zone);
+        let o = self.op_inner(kind);
+        self.last_op = Some(o.clone());
+        o
+    }
+
+    fn op_inner(&mut self, kind: &str) -> Op {
+        // an exact repeat of the previous operation of the run
+        if let Some(prev) = self.last_op.clone() {
+            if !kind.starts_with("now.") && !prev.kind.starts_with("now.") && self.rng.chance(1, 10) {
+                return prev;
+            }
+        }
+        let reuse = if self.hot { self.rng.chance(9, 10) } else { self.rng.chance(1, 4) };
+        let (zone, ns, cal) = if !self.recent.is_empty() && reuse {
+            // the same receiver as an earlier operation (maybe another kind)
+            self.rng.pick(&self.recent).clone()
+        } else {
+            let zone = self.zone();
+            let ns = self.instant(&zone);
+            let cal = if self.rng.chance(1, 4) { self.rng.below(ops::CALS.len() as u64) as u8 } else { 0 };
+            if self.recent.len() < 12 {
+                self.recent.push((zone.clone(), ns, cal));
+            }
+            (zone, ns, cal)
+        };
         let mut o = Op::new(kind, &zone, ns);
         o.sel = self.rng.next() as u32;
-        if self.rng.chance(1, 4) {
-            o.cal = self.rng.below(ops::CALS.len() as u64) as u8;
-        }
+        o.cal = cal;
         // distinct receiver and argument
         if matches!(kind, "zdt.since" | "zdt.until") {
             o.zone2 = if self.rng.chance(1, 2) { zone.clone() } else { self.zone() };
@@ -276,7 +306,19 @@ impl<'a> Gen<'a> {
         kinds.extend(ops::RAW);
         kinds.extend(ops::CORE_ONLY);
         // workload mix varies per run
-        let focus: Vec<&str> = (0..6).map(|_| *self.rng.pick(&kinds)).collect();
+        let mut focus: Vec<&str> = (0..6).map(|_| *self.rng.pick(&kinds)).collect();
+        self.hot = self.rng.chance(1, 3);
+        if self.hot {
+            focus.truncate(1 + self.rng.below(2) as usize);
+            let n = 2 + self.rng.below(3) as usize;
+            self.recent.clear();
+            for _ in 0..n {
+                let zone = self.zone();
+                let ns = self.instant(&zone);
+                self.recent.push((zone, ns, 0));
+            }
+        }
+        let hot = self.hot;
         let inject_rate = *self.rng.pick(&[0u64, 0, 1, 2, 4]); // out of 16
         let mut threads = vec![];
         for _ in 0..n_threads {
@@ -287,7 +329,8 @@ impl<'a> Gen<'a> {
                     v.push(Op::new(ops::INJECT_PANIC, "UTC", 0));
                     continue;
                 }
-                let k = if self.rng.chance(1, 2) { *self.rng.pick(&focus) } else { *self.rng.pick(&kinds) };
+                let in_focus = if hot { self.rng.chance(5, 6) } else { self.rng.chance(1, 2) };
+                let k = if in_focus { *self.rng.pick(&focus) } else { *self.rng.pick(&kinds) };
                 v.push(self.op(k));
             }
             threads.push(v);
